@@ -305,10 +305,12 @@ def declare_fs(w):
             names = z3.Const(core.fresh_name("listdir"), z3.SeqSort(z3.StringSort()))
             i, j = z3.Int(core.fresh_name("li")), z3.Int(core.fresh_name("lj"))
             n = z3.String(core.fresh_name("ln"))
+            idx = z3.Function(core.fresh_name("listed_at"), z3.StringSort(), z3.IntSort())     # where an existing entry stands in the listing
             # every name is an existing entry of p, names are distinct simple names, and every existing entry with a simple name is listed
             s2.assume(z3.ForAll([i], z3.Implies(z3.And(i >= 0, i < z3.Length(names)), z3.And(fsget(s2.heap, "kind", z3.Concat(p, SLASH, names[i])) != K_ABSENT, simple(names[i]))), patterns=[names[i]]),
                       z3.ForAll([i, j], z3.Implies(z3.And(i >= 0, i < j, j < z3.Length(names)), names[i] != names[j]), patterns=[z3.MultiPattern(names[i], names[j])]),
-                      z3.ForAll([n], z3.Implies(z3.And(simple(n), fsget(s2.heap, "kind", z3.Concat(p, SLASH, n)) != K_ABSENT), z3.Contains(names, z3.Unit(n))), patterns=[z3.Concat(p, SLASH, n)]))
+                      z3.ForAll([n], z3.Implies(z3.And(simple(n), fsget(s2.heap, "kind", z3.Concat(p, SLASH, n)) != K_ABSENT),
+                                                z3.And(z3.Contains(names, z3.Unit(n)), idx(n) >= 0, idx(n) < z3.Length(names), names[idx(n)] == n)), patterns=[z3.Concat(p, SLASH, n)]))
             yield s2, SV(SEQ(STR), names)
 
     w.externals["os.listdir"] = os_listdir
@@ -638,19 +640,9 @@ def declare_serve_rsync(w):
     w.call_hooks[("iter", "ref:ModList")] = iter_modlist
     items = lambda h, m: h("ModList", m, "items")
 
-    # ---- summary of the recursive walk (assumed: the directory branch is not verified, see DESIGN) ------------------------------------------------
+    # ---- the recursive walk as seen by its callers: the contract verified in the world `walk` (declare_walk_loops) ------------------------------------
     def walk_post(a, h, h2, r, gen=False):
-        I, I2 = items(h, a.modifiedfiles), items(h2, a.modifiedfiles)
-        ib, ib2 = inbox(h, a.channel), inbox(h2, a.channel)
-        i, j = (z3.Int("qw1"), z3.Int("qw2")) if gen else (z3.Int("W1"), z3.Int("W2"))
-        rng = z3.And(i >= slen(I), i < j, j < slen(I2))
-        f = z3.Implies(rng, mf_path(I2[i]) != mf_path(I2[j]))
-        one = z3.Implies(z3.And(i >= slen(I), i < slen(I2)), z3.And(z3.PrefixOf(z3.Concat(a.destdir, SLASH), mf_path(I2[i])), z3.Or(fsget(h2, "kind", mf_path(I2[i])) == K_FILE, fsget(h2, "kind", mf_path(I2[i])) == K_ABSENT)))
-        if gen:
-            f = z3.ForAll([i, j], f, patterns=[z3.MultiPattern(I2[i], I2[j])])
-            one = z3.ForAll([i], one, patterns=[I2[i]])
-        return [z3.PrefixOf(I, I2), z3.SuffixOf(ib2, ib), f, one,
-                arr(h2, "content") == arr(h, "content"), arr(h2, "mtime") == arr(h, "mtime"), arr(h2, "target") == arr(h, "target")]
+        return walk_post_full(a, h, h2, r, gen)
 
     c = w.add(Contract(RDS, {"path": STR, "relcomponents": SEQ(STR)},
                        requires=lambda a, h: [("path-is-destdir-joined-with-the-components", a.path == joinall(a.destdir, a.relcomponents)), ("channel-and-list", z3.And(a.channel != 0, a.modifiedfiles != 0))],
@@ -659,8 +651,8 @@ def declare_serve_rsync(w):
                        cases=[Case("ok", post=walk_post, post_assume=lambda a, h, h2, r: walk_post(a, h, h2, r, gen=True)), Case("connection-lost", "raise", "EOFError"), Case("cannot", "raise", "OSError"),
                               Case("outside", "raise", "AssertionError")],
                        trusted=True, allocates=True,
-                       note="summary of the whole recursive walk: queues files (distinct paths below destdir, each absent or a regular file by then), consumes a prefix of the inbox, touches neither contents, "
-                            "times nor link targets; ASSUMED - the directory branch of receive_directory_structure is not verified (bounded oracle only)"), variant="walk")
+                       note="the recursive walk: queues files (distinct paths below path, each absent or a regular file by then), consumes a non-empty prefix of the inbox, touches nothing outside path and "
+                            "neither contents, times nor link targets; directory messages: directory made, owner-writable, unlisted entries removed iff delete - VERIFIED as walk::receive_directory_structure#walk"), variant="walk")
     entry = w.contracts[f"{RDS}#entry"]
     c.closure = dict(entry.closure)
     return w
@@ -1205,17 +1197,22 @@ def walk_post_full(a, h, h2, r, gen=False):
             arr(h2, "content") == arr(h, "content"), arr(h2, "mtime") == arr(h, "mtime"), arr(h2, "target") == arr(h, "target"),
             # a directory message: a directory stands at path afterwards, owner-writable with the source's other bits
             z3.Implies(isdir, fsget(h2, "kind", P) == K_DIR),
-            z3.Implies(z3.And(isdir, m_mode(u) != 0), fsget(h2, "perm", P) == perm_of(or700(m_mode(u))))]
+            z3.Implies(z3.And(isdir, m_mode(u) != 0), fsget(h2, "perm", P) == perm_of(or700(m_mode(u)))),
+            # delete: no entry of the directory other than the listed names is left; without delete: entries with unlisted names are not touched
+            z3.Implies(z3.And(isdir, delete, simple(SN), z3.Not(z3.Contains(m_names(u), z3.Unit(SN)))), fsget(h2, "kind", child(P, SN)) == K_ABSENT),
+            z3.Implies(z3.And(isdir, z3.Not(delete), fsget(h, "kind", P) == K_DIR, simple(SN), z3.Not(z3.Contains(m_names(u), z3.Unit(SN))), under(child(P, SN), QP)),
+                       fsget(h2, "kind", QP) == fsget(h, "kind", QP))]
 
 
 def declare_walk(w):
     declare_serve_rsync(w)
     w.axiom_providers.extend([ax_names, ax_seg_child, ax_seg_prefix])
     old = w.contracts[f"{RDS}#walk"]
-    c = Contract(RDS, old.params, requires=old.requires, modifies=lambda a, h: old.modifies(a, h) + [("DirMsg", None, "popped")],
+    c = Contract(RDS, old.params, requires=old.requires, modifies=old.modifies,
                  cases=[Case("ok", post=walk_post_full, post_assume=lambda a, h, h2, r: walk_post_full(a, h, h2, r, gen=True)), Case("connection-lost", "raise", "EOFError"), Case("cannot", "raise", "OSError"),
                         Case("outside", "raise", "AssertionError")], props=["C17"], allocates=True)
     c.variant_name = "walk"
+    c.split_post = True
     c.closure = dict(old.closure)
     w.contracts[f"{RDS}#walk"] = c
     w.variants[RDS] = [w.contracts[f"{RDS}#entry"], c]
@@ -1257,13 +1254,37 @@ def declare_walk_loops(w):
                 ("the-directory-itself-stays", z3.And(fsget(h, "kind", P) == K_DIR, fsget(h, "perm", P) == fsget(pre, "perm", P))),
                 ("contents-times-targets-untouched", z3.And(arr(h, "content") == arr(old, "content"), arr(h, "mtime") == arr(old, "mtime"), arr(h, "target") == arr(old, "target"))),
                 ("entrynames-are-the-names-so-far", fa([sn], present(sn) == z3.Contains(z3.SubSeq(N, 0, k), z3.Unit(sn)), [present(sn)])),
+                ("unlisted-entries-untouched", fa([q, sn], z3.Implies(z3.And(simple(sn), z3.Not(z3.Contains(N, z3.Unit(sn))), under(child(P, sn), q)), fsget(h, "kind", q) == fsget(pre, "kind", q)),
+                                                  [z3.MultiPattern(fsget(h, "kind", q), z3.Contains(N, z3.Unit(sn)))])),
                 ("params", z3.And(L.path == P, L.relcomponents == a.relcomponents, L.msg != 0, h("DirMsg", L.msg, "popped"), N == m_names(inbox(old, a.channel)[0]),
                                   m_tag(inbox(old, a.channel)[0]) == T_LIST, L.mode == m_mode(inbox(old, a.channel)[0])))]
 
     l0 = LoopSpec(RDS, 0, invariant=lambda L: names_loop(L),
                   havoc_cells=lambda L: [("FS", FSR, "kind"), ("FS", FSR, "perm"), ("Channel", Args(L.ex.inputs).channel, "$inbox"), ("Channel", Args(L.ex.inputs).channel, "$requested"),
                                          ("Channel", Args(L.ex.inputs).channel, "$checksum"), ("ModList", Args(L.ex.inputs).modifiedfiles, "items")],
-                  havoc_fields=["DirMsg.popped", "DirMsg.mode", "DirMsg.names"], props=["C17"])
+                  props=["C17"])
     l0.invariant_assume = lambda L: [f for _, f in names_loop(L, gen=True)]
     w.add_loop(l0)
+
+    def delete_loop(L, gen=False):
+        a, P, N = ctx(L)
+        h, pre, old = L.h, L.pre, L.old
+        items = lambda hh: hh("ModList", a.modifiedfiles, "items")
+        O = L.iterable.v                      # os.listdir(path) as it was when the loop started
+        j = z3.Int("qd_j") if gen else W1
+        c = z3.Int("qd_c") if gen else WC
+        q = z3.String("qd_q") if gen else QP
+        fa = (lambda vs, f, pats: z3.ForAll(vs, f, patterns=pats)) if gen else (lambda vs, f, pats: f)
+        en = L.sv("entrynames")
+        present = lambda s_: z3.Select(en.v[0], s_)
+        return [("unlisted-entries-so-far-are-gone", fa([j], z3.Implies(z3.And(j >= 0, j < L.k, z3.Not(present(O[j]))), fsget(h, "kind", child(P, O[j])) == K_ABSENT), [O[j]])),
+                ("entries-only-vanish", fa([q], z3.Or(fsget(h, "kind", q) == fsget(pre, "kind", q), fsget(h, "kind", q) == K_ABSENT), [fsget(h, "kind", q)])),
+                ("listed-children-and-the-outside-untouched", fa([q, c], z3.Implies(z3.Or(z3.Not(under(P, q)), q == P, z3.And(c >= 0, c < slen(N), under(child(P, N[c]), q))),
+                                                                                        fsget(h, "kind", q) == fsget(pre, "kind", q)), [z3.MultiPattern(fsget(h, "kind", q), N[c])])),
+                ("only-kinds-change", z3.And(arr(h, "perm") == arr(pre, "perm"), items(h) == items(pre), inbox(h, a.channel) == inbox(pre, a.channel))),
+                ("params", z3.And(L.path == P, L.msg != 0, N == m_names(inbox(old, a.channel)[0])))]
+
+    l1 = LoopSpec(RDS, 1, invariant=lambda L: delete_loop(L), havoc_cells=lambda L: [("FS", FSR, "kind")], props=["C17"])
+    l1.invariant_assume = lambda L: [f for _, f in delete_loop(L, gen=True)]
+    w.add_loop(l1)
     return w
